@@ -1,5 +1,6 @@
 use crate::driver::streams::unilocal::StreamUniLocalH3;
 use crate::driver::streams::uniremote::StreamUniRemoteH3;
+use crate::driver::streams::FrameReader;
 use crate::driver::streams::ProtoReadError;
 use crate::driver::streams::ProtoWriteError;
 use crate::driver::DriverError;
@@ -76,25 +77,25 @@ impl LocalSettingsStream {
 }
 
 pub struct RemoteSettingsStream {
-    stream: Option<StreamUniRemoteH3>,
+    stream: FrameReader<StreamUniRemoteH3>,
     settings: watch::Sender<Option<Settings>>,
 }
 
 impl RemoteSettingsStream {
     pub fn empty() -> Self {
         Self {
-            stream: None,
+            stream: FrameReader::empty(),
             settings: watch::channel(None).0,
         }
     }
 
     pub fn is_empty(&self) -> bool {
-        self.stream.is_none()
+        self.stream.is_empty()
     }
 
     pub fn set_stream(&mut self, stream: StreamUniRemoteH3) {
         assert!(matches!(stream.kind(), StreamKind::Control));
-        self.stream = Some(stream);
+        self.stream.set_stream(stream);
     }
 
     pub fn subscribe(&self) -> RemoteSettingsWatcher {
@@ -125,12 +126,13 @@ impl RemoteSettingsStream {
         }
     }
 
-    async fn read_frame<'a>(&mut self) -> Result<Frame<'a>, DriverError> {
-        let Some(stream) = self.stream.as_mut() else {
+    async fn read_frame(&mut self) -> Result<Frame<'static>, DriverError> {
+        // Cancel safe: a partially received frame is resumed by the next call.
+        let Some(result) = self.stream.read_frame().await else {
             return pending().await;
         };
 
-        match stream.read_frame().await {
+        match result {
             Ok(frame) => Ok(frame),
             Err(ProtoReadError::H3(error_code)) => Err(DriverError::Proto(error_code)),
             Err(ProtoReadError::IO(io_error)) => match io_error {
